@@ -1,7 +1,7 @@
 from .. import attr_oracles as O
 from .attr_common import run_attr_property, replay_attr
 
-DEPS = {"C20": ["AttrThms.vo"], "C09": ["AttrThms.vo", "gen/KernelsGen.vo", "GenRef.vo", "KernelCS.vo"], "C10": ["AttrThms.vo", "AttrThms2.vo"], "C11": ["AttrThms.vo", "gen/KernelsGen.vo", "GenRef.vo", "KernelCS.vo"], "C06": ["AttrThms.vo"]}
+DEPS = {"C20": ["AttrThms.vo"], "C09": ["AttrThms.vo", "gen/KernelsGen.vo", "GenRef.vo", "KernelCS.vo"], "C10": ["AttrThms.vo", "AttrThms2.vo"], "C11": ["AttrThms.vo", "gen/KernelsGen.vo", "GenRef.vo", "KernelCS.vo", "Rms.vo", "Scatter.vo"], "C06": ["AttrThms.vo"]}
 
 
 def kernel_scatter(ck):
